@@ -216,6 +216,14 @@ def object_specs(tier):
         for spec in c01.string_contexts(s):
             yield spec
         yield c01.embedded(1, s)
+    for ns in ops.PATH_NS:
+        for h in (None, 'h'):
+            ip = ['ipath', 'Foo', [['k', ['s', 'x']]], ns, h]
+            yield ip
+            yield ['cpath', 'Foo', ns, h]
+            yield ['inst', 'Foo', [['prop', 'p', ['s', 'x'], {}]], ip]
+            yield ['class', 'Foo', [], [], {'path': ['cpath', 'Foo', ns, h]}]
+            yield ['prop', 'R', ip, {'type': 'reference'}]
     for w in ops.WEIRD:
         yield ['cpath', w, None, None]
         yield ['cpath', 'Foo', w, 'h']
